@@ -3,8 +3,9 @@
 Decided (for ALL values, by enumeration of order types -- see osmlint/ordertype.py -- or by resolved program shape):
 
  O1-id_order-comparison-only        id_order::operator() touches its ids only through comparisons with each other / constants
-                                    (otherwise the abstraction is inexact => analysis-broken, exit 2, never a pass: the INT64_MIN
-                                    negation bug of 2.17.2 cannot come back unnoticed)
+                                    (helpers, named locals, std::min/max are looked through).  Arithmetic / negation / abs on the
+                                    ids is reported as a VIOLATION of this rule (the INT64_MIN negation bug of 2.17.2 cannot come
+                                    back unnoticed); only a shape the engine does not model is analysis-broken (exit 2)
  O2-id_order-strict-weak-order      irreflexive, asymmetric, transitive, transitive incomparability, and incomparable <=> equal
                                     over all 75 order types of {a, b, c, 0}
  O3-id_order-documented-rule        equals the documented rule (0 first, then negative ids by ascending magnitude, then positive
@@ -36,7 +37,10 @@ Decided (for ALL values, by enumeration of order types -- see osmlint/ordertype.
                                     the new id is not strictly after the stored maximum under the documented id rule; decided by
                                     abstract execution of the handler (ids only through comparisons / id_order) in all 104 worlds
  K3-accept-updates-state            on every accepted path the per-type maximum becomes the new id, the own seen-flag is true and
-                                    nothing else changes
+                                    nothing else changes (std::max/std::min of old maximum and id are evaluated exactly and rejected
+                                    where they keep the old value; an arithmetic state update is a violation of this rule, an
+                                    arithmetic accept/reject decision one of K2).  Handlers may be split into private helpers,
+                                    use named locals and early returns
  S1-sort-forwards-comparator        ObjectPointerCollection::sort passes (begin, end, the caller's comparator unchanged) of its
                                     pointer vector to std::stable_sort
  S2-unique-forwards-and-erases      ...::unique passes the caller's predicate unchanged to std::unique over the whole vector and
